@@ -142,10 +142,43 @@ def restyle(text, nl, tab, final):
 STYLES = [(nl, tab, final) for nl in ("\n", "\r\n", "\r") for tab in (False, True) for final in (True, False)]
 
 
+def digest_file(text):
+    """the same through the file interface: the text is written into the worker's working file and load()ed"""
+    import os
+    import tempfile
+    import blackbird
+    if common.SCRATCH is None or not os.path.isdir(common.SCRATCH):
+        common.SCRATCH = tempfile.mkdtemp(prefix="bbv-files-")
+    path = os.path.join(common.SCRATCH, "c18-%d.xbb" % os.getpid())
+    with open(path, "w", encoding="utf-8", newline="") as f:
+        f.write(text)
+    observe.reset_tables()
+    try:
+        p = blackbird.load(path)
+    except Exception as e:  # noqa
+        return ("EXC", type(e).__name__, str(e).replace(common.SCRATCH, "<D>")[:100])
+    return repr(observe.prog_canon(p, exact=True, variables=True))
+
+
+def header(n):
+    """exactly n characters of comment and blank lines"""
+    out = []
+    left = n
+    k = 0
+    while left > 0:
+        line = ("# " + "header line %03d " % k + "x" * 40)[:max(0, min(left - 1, 60))]
+        if k % 5 == 4:
+            line = ""
+        out.append(line + "\n")
+        left -= len(line) + 1
+        k += 1
+    return "".join(out)
+
+
 @common.guarded("C18")
 def _case(c):
     name, text, ref = c
-    d = digest(text)
+    d = digest_file(text) if name.startswith("file:") else digest(text)
     if d == ref:
         return None
     if isinstance(d, tuple):
@@ -177,6 +210,13 @@ def run(ctx):
             for pre in ("\n", "# c\n", "\n\n# c\n \n"):
                 cases.append((name, restyle(pre + base, *st), ref))
                 meta.append((name, "lines-before-metadata", "", st))
+        # how MUCH comes before the metadata: comment/blank headers of exactly n characters around powers of two
+        if name in list(BASES)[:2]:
+            for n in [100, 1000] + list(range(2040, 2056)) + [4090, 4096, 4100, 8192, 20000]:
+                for st in (STYLES[0], STYLES[2], STYLES[8]):
+                    cases.append((name, restyle(header(n) + base, *st), ref))
+                    meta.append((name, "header-size", "", st))
+                    per_kind["header-size"] += 1
         # every assignment of {tab, four spaces} to the individual indented lines (mixed within one loop body / array)
         ls = base.split("\n")
         ind = [i for i, l in enumerate(ls) if l.startswith("    ")]
@@ -209,6 +249,13 @@ def run(ctx):
                 cases.append((name, var, ref))
                 meta.append((name, "pair:" + e1[0].split(":")[0] + "+" + e2[0].split(":")[0], "directly-after-for-header" if "directly-after-for-header" in (e1[2], e2[2]) else (e1[2] or e2[2]), STYLES[0]))
                 per_kind["pair"] += 1
+    # the file interface: every style-only, before-metadata, header-size and own-line-comment variant also through load()
+    for (name, text, ref), m in list(zip(cases, meta)):
+        if m[1] in ("style-only", "lines-before-metadata", "header-size") or m[1].startswith("comment-content:own-line"):
+            cases.append(("file:" + name, text, ref))
+            meta.append((name, "file-route:" + m[1], m[2], m[3]))
+            per_kind["file-route"] += 1
+    common.SCRATCH = ctx.scratch
     res = pool.pmap(_case, cases, chunk=100)
     distinct = set()
     for (name, text, ref), m, r in zip(cases, meta, res):
@@ -225,7 +272,7 @@ def run(ctx):
     cov = {"evaluations": len(cases), "distinct_nontrivial": len(distinct - set(BASES.values())),
            "rule": "%d base scripts covering every rule that mentions NEWLINE or TAB; edits at EVERY site: spaces at each intra-line token boundary and line end set to 1/2/3 (kept only if the reference tokenizer confirms an unchanged token sequence; "
                    "boundaries next to indentation excluded), 3 kinds of trailing comment on each line, %d comment texts (trailing backslash, quotes, statements, keywords, parameters, non-ASCII, other line-boundary characters) trailing on each line and on lines of their own, 5 kinds of inserted line before each line and at end of file (not inside array bodies); x 12 global styles (LF/CRLF/CR x tab/4 spaces x final newline or not) "
-                   "(quick: 3 styles for spacing edits); blank/comment lines before the metadata; pairs of line edits on the short bases. non-trivial = variant text differs from the base; distinct by text" % (len(BASES), len(COMMENT_TEXTS)),
+                   "(quick: 3 styles for spacing edits); blank/comment lines before the metadata; comment/blank headers of exactly n characters for n around 2048 / 4096 / 8192 and up to 20000; the style-only, before-metadata, header and own-line-comment variants also through the file interface (load() of one working file per worker); pairs of line edits on the short bases. non-trivial = variant text differs from the base; distinct by text" % (len(BASES), len(COMMENT_TEXTS)),
            "samples": [repr(c[1]) for c in common.sample(cases, 4)], "exhaustive": True, "by_edit_kind": dict(per_kind), "base_scripts_not_loading": not_loading, "spacing_edits_skipped_token_change": skipped}
     return {"coverage": cov, "violations": Vs.records(),
             "assumptions": ["a comment line indented by a tab or four spaces produces a TAB token: next to indentation, excluded by the property, not generated", "digest = exact canonical program content incl. variables"]}
@@ -259,6 +306,6 @@ def compose(base, e1, e2):
 
 
 def replay(case):
-    base = BASES[case["base"]]
+    base = BASES[case["base"].replace("file:", "")]
     r = _case((case["base"], case["text"], digest(base)))
     return (r is not None), repr(r)[:300]
